@@ -104,3 +104,75 @@ class MainPhysics(MainConfig):
         return [('slip0', {'C03'}, And(cx.st.len_of('local:slip') == 3, z3.Select(sl, 0) == v('angle'))),
                 ('angle', {'C03'}, v('angle') == 2 * PI / v('steps')),
                 ('e1', {'C04'}, Implies(v('t_damp') > 0, v('e1') == 2 / (v('fs') * v('t_damp') * v('steps'))))]
+
+
+class MainTrackingFile(Contract):
+    """main(): reading the particle tracking file (C15/C17).  For every content of the file — any number of values, malformed
+    text, coordinates far outside the grid — each stored particle starts on the grid (0 <= x <= nx-1, 0 <= y <= ny-1): the
+    precondition of every tracking map and of HDF5File::appendTracks.  std::istream as fail/eof flags (specs/ps.py)."""
+    name = 'main'
+    tu = 'src/main.cpp'
+    tu_filter = 'main'
+    aux_tus = [('src/main.cpp', 'vfps::')]
+    params = ['argc', 'argv']
+    tags = {'C15', 'C17'}
+    ghosts = {'k': 'int'}
+    slice_from = 'trackme'
+    slice_count = 2
+
+    def slice_setup(self, ex, st):
+        from .common import PS_static, declare_ps, ps_globals
+        from .sm import Ruler_valid
+        cx = Ctx(ex, st, st, ex.args0)
+        g = ex.args0.get('grid_t1')
+        if not isinstance(g, ObjRef):
+            raise ExtractionError('main: grid_t1 not found before the tracking file is read')
+        self.grid = g.name
+        nx, ny, nb = ps_globals(cx)
+        st.assume(And(PS_static(cx), declare_ps(cx, g.name), Ruler_valid(cx, g.name + '._axis[0]', nx), Ruler_valid(cx, g.name + '._axis[1]', ny)))
+
+    def assigns(self, cx):
+        return [('s', 'ghost.*'), ('s', 'init:*'), ('s', 'arg:*')]
+
+    @property
+    def calls(self):
+        from .ps import IStream
+        noop = lambda ex, n, st, objn, argn, this_override=None: VoidV()
+        strv = lambda ex, n, st, objn, argn, this_override=None: Opaque('string')
+        fresh_bool = lambda ex, n, st, objn, argn, this_override=None: BoolV(z3.Bool(f'str_cmp!{ex.curline}!{id(n) % 9973}'))
+        return {'operator>>': IStream.extract, 'good': IStream.good, 'operator bool': IStream.as_bool, 'fail': IStream.failed,
+                'getParticleTracking': strv, 'operator!=': fresh_bool, 'operator==': fresh_bool,
+                'ctor:std::basic_ifstream<char>': lambda ex, n, st, objn, argn, this_override=None: ObjRef(this_override, 'std::ifstream'),
+                'ctor:std::ifstream': lambda ex, n, st, objn, argn, this_override=None: ObjRef(this_override, 'std::ifstream'),
+                'ctor:std::basic_stringstream<char>': lambda ex, n, st, objn, argn, this_override=None: ObjRef(this_override, 'std::stringstream'),
+                'ctor:std::stringstream': lambda ex, n, st, objn, argn, this_override=None: ObjRef(this_override, 'std::stringstream'),
+                'operator<<': strv, 'operator+': strv, 'str': strv, 'what': strv, 'printText': noop, 'clear': self._clear}
+
+    @staticmethod
+    def _clear(ex, n, st, objn, argn, this_override=None):
+        o = ex.ev_obj(objn, st)
+        st.length[o.name] = I(0)
+        ex.logw(('len', o.name))
+        return VoidV()
+
+    def ensures(self, cx):
+        from .common import ps_globals
+        nx, ny, nb = ps_globals(cx)
+        k = cx.g('k')
+        tm = cx.val('trackme').name
+        inr = And(k >= 0, k < cx.len(tm))
+        return [('particles_start_on_grid', {'C15', 'C17'}, Implies(inr, And(cx.sel(tm, k, 'x') >= 0, cx.sel(tm, k, 'x') <= z3.ToReal(nx) - 1,
+                                                                          cx.sel(tm, k, 'y') >= 0, cx.sel(tm, k, 'y') <= z3.ToReal(ny) - 1)))]
+
+    def _inv(self, cx):
+        from .common import ps_globals
+        nx, ny, nb = ps_globals(cx)
+        k = cx.g('k')
+        tm = cx.val('trackme').name
+        inr = And(k >= 0, k < cx.len(tm))
+        return [('len', cx.len(tm) >= 0),
+                ('on_grid', Implies(inr, And(cx.sel(tm, k, 'x') >= 0, cx.sel(tm, k, 'x') <= z3.ToReal(nx) - 1, cx.sel(tm, k, 'y') >= 0, cx.sel(tm, k, 'y') <= z3.ToReal(ny) - 1)))]
+
+    @property
+    def loops(self):
+        return {'while#0': LoopSpec(inv=self._inv)}
